@@ -843,6 +843,18 @@ func (s *projState) judgeRun(res *Result, sched Sched, forceBefore bool, oi stri
 	for _, n := range closure {
 		t := s.prog.Task(n)
 		in, nfiles, missing := Inputs(s.prog, t, s.diskAt(n, v))
+		// a dangling symbolic link that one of the task's globs matches is listed by the expansion
+		// and cannot be opened: spok must fail on it just as on a missing literal dependency
+		for l, target := range s.links {
+			if _, ok := s.diskAt(n, v)[target]; ok {
+				continue
+			}
+			for _, d := range t.Deps {
+				if d.Kind == "glob" && !strings.HasPrefix(l, ".") && GlobMatch(d.Value, l) {
+					missing = append(missing, l)
+				}
+			}
+		}
 		if len(missing) > 0 {
 			anyMissing = true
 		}
